@@ -43,6 +43,17 @@ def mk(cfg, fs):
     if t == 'square':
         return stim.SquareWaveFactory(fs, cfg['level'], cfg['freq'], cfg['duty'])
     if t == 'fixed':
+        if cfg.get('cls') == 'click':
+            from psiaudio.calibration import FlatCalibration
+            return stim.ClickFactory(fs, cfg['n'] / fs + 0.25 / fs, 2.0, cfg.get('pol', 1), FlatCalibration.unity())
+        if cfg.get('cls') == 'chirp':
+            from psiaudio.calibration import FlatCalibration
+            return stim.ChirpFactory(fs, fs / 20.0, fs / 5.0, cfg['n'] / fs + 0.25 / fs, 1.0, FlatCalibration.unity(),
+                                     window=cfg.get('window', 'boxcar'))
+        if cfg.get('cls') == 'wav':
+            return stim.WavFileFactory(fs, _wav_path(cfg['n'], fs), normalization=cfg.get('norm', 'pe'))
+        if cfg.get('cls') == 'blclick':
+            return stim.BandlimitedClickFactory(fs, fs / 10.0, fs / 4.0, cfg['n'] / fs, 1.0)
         return stim.FixedWaveform(fs, fixed_array(cfg))
     if t == 'gate':
         return stim.GateFactory(fs, t_of(cfg['start'], fs), t_of(cfg['dur'], fs), mk(cfg['in'], fs))
@@ -66,8 +77,25 @@ def mk(cfg, fs):
     raise KeyError(t)
 
 
-def fixed_array(cfg):
+def _wav_path(n, fs):
+    """a small 16-bit wav file (written once per (n, rate)) under /verif/work"""
+    import os
+    from scipy.io import wavfile
+    rate = int(round(fs))
+    d = os.path.join(os.path.dirname(os.path.dirname(os.path.abspath(__file__))), 'work', 'wav')
+    os.makedirs(d, exist_ok=True)
+    path = os.path.join(d, f'w{n}_{rate}.wav')
+    if not os.path.exists(path):
+        data = (np.round(12000 * np.sin(np.arange(n) * 0.7 + 0.3)) + np.arange(n) * 17).astype(np.int16)
+        wavfile.write(path, rate, data)
+    return path
+
+
+def fixed_array(cfg, fs=None):
     n = cfg['n']
+    if cfg.get('cls'):
+        # the real FixedWaveform subclasses compute their own array once; recipes index into it
+        return np.asarray(mk(cfg, fs).waveform, dtype=float)
     return (np.arange(n, dtype=np.double) + 1.0) * 0.37 - 3.0
 
 
@@ -107,7 +135,8 @@ def coq_gen(cfg, reg):
         return f'(GSquare {nid} {zlit(cycle)} {zlit(on)})'
     if t == 'fixed':
         wid = reg.new({'kind': 'wave', 'cfg': cfg})
-        return f'(GFixed {wid} {zlit(cfg["n"])})'
+        n = len(fixed_array(cfg, fs)) if cfg.get('cls') else cfg['n']
+        return f'(GFixed {wid} {zlit(n)})'
     inner = coq_gen(cfg['in'], reg) if 'in' in cfg else None
     if t == 'gate':
         return f'(GGate {zlit(eff(cfg["start"], fs))} {zlit(eff(cfg["dur"], fs))} {inner})'
@@ -207,7 +236,7 @@ class Evaluator:
         elif k == 'filt':
             a = np.asarray(mk(info['cfg'], self.fs).next(self.n), dtype=float)
         elif k == 'wave':
-            a = fixed_array(info['cfg'])
+            a = fixed_array(info['cfg'], self.fs)
         elif k == 'ramp':
             m = 2 * info['rise']
             w = info['window']
@@ -356,7 +385,12 @@ def catalogue(fs, rng, rich=False):
             {'t': 'shaped', 'seed': 9, 'level': 1.0},
             {'t': 'square', 'level': 2.0, 'freq': fs / 7.0, 'duty': 0.4},
             {'t': 'square', 'level': 1.0, 'freq': fs / 10.0, 'duty': 0.5},
-            {'t': 'fixed', 'n': 13}]
+            {'t': 'fixed', 'n': 13},
+            # the FixedWaveform subclasses that compute their array themselves (n = int(fs*duration))
+            {'t': 'fixed', 'n': 9, 'cls': 'click', 'pol': -1},
+            {'t': 'fixed', 'n': 24, 'cls': 'chirp', 'window': 'hann'},
+            {'t': 'fixed', 'n': 16, 'cls': 'blclick'},
+            {'t': 'fixed', 'n': 21, 'cls': 'wav'}]
     out = list(cars)
     out += [
         {'t': 'gate', 'start': 0, 'dur': 9, 'in': tone},
